@@ -615,6 +615,45 @@ def worker(case, led):
                               {"method": method, "timedep": True, "adaptive": True}, rep)
 
 
+def w_tiny_norm(case, led):
+    """chain states of tiny norm propagated with normalize=False at full bond dimension: the projector-splitting schemes follow the dense propagator as they do at unit norm"""
+    _, seed = case
+    import scipy.linalg
+    from renormalizer.model import Model, Op
+    from renormalizer.model.basis import BasisHalfSpin
+    from renormalizer.mps import Mps, Mpo
+    from renormalizer.utils import EvolveConfig, EvolveMethod
+    np.random.seed(seed + 9)
+    rng = np.random.default_rng([seed, 909])
+    n = 7
+    terms = []
+    for i in range(n - 1):
+        terms += [Op("sigma_x sigma_x", [i, i + 1], 1.0), Op("sigma_+ sigma_-", [i, i + 1], 0.8), Op("sigma_- sigma_+", [i, i + 1], 0.8), Op("sigma_z sigma_z", [i, i + 1], 0.6)]
+    terms += [Op("sigma_z", i, float(rng.uniform(0.2, 0.5)) * (i + 1)) for i in range(n)]
+    model = Model([BasisHalfSpin(i) for i in range(n)], terms)
+    mpo = Mpo(model)
+    H = np.asarray(mpo.todense())
+    psi0 = Mps.random(model, 0, 8, percent=1.0)
+    psi0.canonicalise()
+    for scale in (1.0, 1e-7):
+        for method in (EvolveMethod.tdvp_ps2, EvolveMethod.tdvp_ps):
+            for tau in (0.3, 2.0):
+                psi = psi0.copy().scale(scale)
+                v0 = np.asarray(S.dense(psi)).reshape(-1).astype(complex)
+                psi.evolve_config = EvolveConfig(method)
+                key = ("tiny", seed, scale, str(method), tau)
+                rep = {"chain": f"{n} spins, full bond dimension", "scale": scale, "method": str(method), "tau": tau, "seed": seed}
+                try:
+                    out = psi.evolve(mpo, tau, normalize=False)
+                    ref = scipy.linalg.expm(-1j * tau * H) @ v0
+                    got = np.asarray(S.dense(out)).reshape(-1)
+                    err = float(np.linalg.norm(got - ref) / np.linalg.norm(ref))
+                    led.check(err <= 1e-6, "post:Mps.evolve:full_rank_exact_for_any_norm", "Mps.evolve",
+                              f"{method}, state of norm {np.linalg.norm(v0):.1e}, tau={tau}: relative deviation from the dense propagator {err:.2e}", key, {"scale": scale}, rep)
+                except Exception as e:
+                    led.check(False, "post:Mps.evolve:tiny_norm_total", "Mps.evolve", f"raised {type(e).__name__}: {e}", key, {"scale": scale}, rep)
+
+
 def check(run):
     seeds = [run.seed] if run.tier == "quick" else [run.seed, run.seed + 1, run.seed + 2]
     models = [("spinqn", 4), ("holstein", 4), ("spin", 3)] if run.tier == "quick" else [("spinqn", 4), ("spinqn", 5), ("holstein", 4), ("holstein", 5), ("spin", 3), ("spin2qn", 4)]
@@ -640,6 +679,7 @@ def check(run):
             for method in ("prop_and_compress", "tdvp_ps"):
                 cases.append(("mpdm", name, n, method, s, run.tier))
     run_cases(run, worker, cases)
+    run_cases(run, w_tiny_norm, [("tiny", run.seed + i) for i in range(1 if run.tier == "quick" else 3)])
     from props import C09_sym
     guarded(run, C09_sym.prove)
     # TDVP-PS / PS2: every local problem handed to the local propagator is the integrator's (call by contract at expm_krylov / solve_ivp)
